@@ -799,8 +799,15 @@ pub fn walk(
         if opts.interfere && !mo.setup && (fp_combine(aux, i as u64 ^ 0x1f1f) & 3) == 0 {
             interfere_with(&eng, &mo);
             st.bump("states_observed_again_after_interference");
-            // observed twice: the object that was already queried, and a fresh object of the same state
-            // (rebuilt through the constructors) whose very first query is has_move with a foreign board
+            // observed twice: first the object that was already queried (right after the twin), then a
+            // fresh object of the same state (rebuilt through the constructors) whose very first query is
+            // has_move with a foreign board
+            let v2 = View::new(&eng, &mo, false);
+            if let Err(f) = obs.on_state(&v2, st) {
+                let mut t = trace.clone();
+                t.fork = Some(VARIANT_INTERFERE);
+                return Err(WalkFail { fail: Fail::new(&f.clause, format!("(observed again right after a type-permuted twin of the position was queried and has_move was called with foreign boards) {}", f.detail)), trace: t, inconclusive: false });
+            }
             let fresh = fork_with_history(&eng, &mo, &[]).map(|x| x.0);
             if let Some(fr) = fresh.as_ref() {
                 let _ = guard(|| {
@@ -813,12 +820,6 @@ pub fn walk(
                     t.fork = Some(VARIANT_INTERFERE);
                     return Err(WalkFail { fail: Fail::new(&f.clause, format!("(a fresh object of this state, rebuilt through the constructors, first asked has_move with an empty board) {}", f.detail)), trace: t, inconclusive: false });
                 }
-            }
-            let v2 = View::new(&eng, &mo, false);
-            if let Err(f) = obs.on_state(&v2, st) {
-                let mut t = trace.clone();
-                t.fork = Some(VARIANT_INTERFERE);
-                return Err(WalkFail { fail: Fail::new(&f.clause, format!("(observed again right after a type-permuted twin of the position was queried and has_move was called with foreign boards) {}", f.detail)), trace: t, inconclusive: false });
             }
         }
         if opts.inject == Inject::Rebuild {
@@ -951,24 +952,21 @@ pub fn walk(
     }
     if opts.inject == Inject::AtEnd(VARIANT_INTERFERE) {
         interfere_with(&eng, &mo);
+        let fail_with = |f: Fail, trace: &Trace| {
+            let mut t = trace.clone();
+            t.fork = Some(VARIANT_INTERFERE);
+            WalkFail { fail: f, trace: t, inconclusive: false }
+        };
+        let v2 = View::new(&eng, &mo, false);
+        obs.on_state(&v2, st).map_err(|f| fail_with(f, &trace))?;
         if let Some((fr, _)) = fork_with_history(&eng, &mo, &[]) {
             let _ = guard(|| {
                 let empty = arimaa_engine_step::PieceBoard::initial();
                 let _ = fr.has_move(empty.piece_board());
             });
             let v3 = View::new(&fr, &mo, false);
-            obs.on_state(&v3, st).map_err(|f| {
-                let mut t = trace.clone();
-                t.fork = Some(VARIANT_INTERFERE);
-                WalkFail { fail: f, trace: t, inconclusive: false }
-            })?;
+            obs.on_state(&v3, st).map_err(|f| fail_with(f, &trace))?;
         }
-        let v2 = View::new(&eng, &mo, false);
-        obs.on_state(&v2, st).map_err(|f| {
-            let mut t = trace.clone();
-            t.fork = Some(VARIANT_INTERFERE);
-            WalkFail { fail: f, trace: t, inconclusive: false }
-        })?;
     } else if let Inject::AtEnd(variant) = opts.inject {
         if let Err((f, variant)) = observe_forks(&eng, &mo, &[variant], obs, st) {
             let mut t = trace.clone();
